@@ -1,0 +1,16 @@
+//go:build verif
+
+// Contracts for contract-based deductive verification (see /verif/DESIGN.md).
+// Comment-only file: it contributes no code to any build.
+
+package webtransport
+
+// ---------------------------------------------------------------- C14: one sequence-number space per connection
+// Every message that goes out on the datagram path of one connection draws its
+// sequence number from the single per-connection counter, whichever handle sends
+// it; otherwise segments of two messages share a reassembly buffer at the receiver.
+
+//@ func (*Transport).WriteUnreliable
+//@   props C14
+//@   requires t.txBytesCounter != nil
+//@   assert call SendTo: arg1 == t.sequenceNumber && t.sequenceNumber == (old(t.sequenceNumber) + 1) % 4294967296
